@@ -104,6 +104,16 @@ class Flavour:
     def model_default_did(self, d):
         return d
 
+    def index_of_fields(self, name, rank):
+        """model value of the object a file entry with these fields describes"""
+        return self.data_index(Item(name, rank))
+
+    def content_intact(self):
+        return True
+
+    def model_did_of_node(self, node):
+        return self.model_did(node.data_id)
+
     def real_did(self, mdid):
         """real data_id for a model data_id"""
         if mdid >= 11 and mdid < 20:
@@ -287,6 +297,56 @@ class DictWrapperFlavour(Flavour):
         return DictWrapper({"name": NAMES[d - 1], "v": d})
 
 
+class UnhashFlavour(Flavour):
+    """plain dicts (unhashable) as data, identified by an id callback (the documented way to store dicts)"""
+    name_sorted = False
+
+    def _make(self, d):
+        return {"name": NAMES[d - 1]}
+
+    def calc_data_id(self):
+        return lambda tree, data: "u_" + data["name"] if isinstance(data, dict) else hash(data)
+
+    def default_real_did(self, d):
+        return "u_" + NAMES[d - 1]
+
+
+class DWrapFlavour(Flavour):
+    """DictWrapper data stored with the library's own mapper pair (DictWrapper.serialize_mapper / deserialize_mapper);
+    the wrapped dicts use the field names of Item, so that custom key / value maps name keys of the user's dicts"""
+    name_sorted = False
+    lib_mappers = (DictWrapper.serialize_mapper, DictWrapper.deserialize_mapper)
+
+    def _pristine(self, d):
+        return {"name": NAMES[d - 1], "rank": d}
+
+    def _make(self, d):
+        return DictWrapper(self._pristine(d))
+
+    def data_index(self, obj):
+        r = self._rev.get(id(obj))
+        if r is not None and self._data[r] is obj:
+            return r
+        if isinstance(obj, DictWrapper):      # rebuilt by load(): by content
+            for d in range(1, 9):
+                if obj._dict == self._pristine(d):
+                    return d
+        return -1
+
+    def model_did_of_node(self, node):
+        # the default id of a DictWrapper is the identity of its dict: after load() it is the identity of the rebuilt one
+        if node.data_id == hash(node.data):
+            return self.data_index(node.data)
+        return self.model_did(node.data_id)
+
+    def index_of_fields(self, name, rank):
+        return rank if 1 <= rank <= 8 and {"name": name, "rank": rank} == self._pristine(rank) else -1
+
+    def content_intact(self):
+        """the user's dicts still hold what the user put into them"""
+        return all(o._dict == self._pristine(d) for d, o in self._data.items())
+
+
 class KeyedFlavour(Flavour):
     """objects keyed by a calc_data_id callback; injective keys; all objects compare =="""
 
@@ -349,6 +409,9 @@ def make(name, typed=False) -> Flavour:
         "dataclass": DataclassFlavour,
         "fwd": FwdFlavour,
         "dictwrapper": DictWrapperFlavour,
+        "dwrap": DWrapFlavour,
+        "unhash": UnhashFlavour,
+        "dwrapx": DWrapFlavour,      # the same, named apart for trees with explicit data_ids
         "keyed": KeyedFlavour,
         "callback": CallbackFlavour,
     }[name]
